@@ -131,7 +131,9 @@ class Ctx:
             path = os.path.join(self.cache, "jobs", name + (".s%d" % self.seed if seeded else "") + ".json")
         if os.path.exists(path):
             with open(path) as f:
-                return json.load(f)
+                r = json.load(f)
+            r["from_cache"] = True
+            return r
         spec = JOBS[name]
         res = run_tlc(self, name, spec) if spec["kind"] == "tlc" else run_pkv_job(self, name, spec)
         with open(path, "w") as f:
@@ -318,13 +320,13 @@ def run_replay(ctx, name, spec):
 
 # --------------------------------------------------------------------------- registries
 ARTEFACTS = {
-    "g_frame": ["graph", "frame", "bits", "30000", "{out}", "{alpha}"],
-    "g_set1": ["graph", "set1", "bytes", "60", "{out}", "{alpha}"],
-    "g_set2": ["graph", "set2", "bytes", "60", "{out}", "{alpha}"],
-    "g_kb1_bytes": ["graph", "kb1", "bytes", "60", "{out}", "{alpha}"],
-    "g_kb2_bytes": ["graph", "kb2", "bytes", "60", "{out}", "{alpha}"],
-    "g_event": ["graph", "event", "events", "20000", "{out}", "{alpha}"],
-    "g_kb2_events": ["graph", "kb2", "kbevents", "20000", "{out}", "{alpha}"],
+    "g_frame": ["graph", "frame", "bits", "100000", "{out}", "{alpha}"],
+    "g_set1": ["graph", "set1", "bytes", "3000", "{out}", "{alpha}"],
+    "g_set2": ["graph", "set2", "bytes", "3000", "{out}", "{alpha}"],
+    "g_kb1_bytes": ["graph", "kb1", "bytes", "3000", "{out}", "{alpha}"],
+    "g_kb2_bytes": ["graph", "kb2", "bytes", "3000", "{out}", "{alpha}"],
+    "g_event": ["graph", "event", "events", "30000", "{out}", "{alpha}"],
+    "g_kb2_events": ["graph", "kb2", "kbevents", "30000", "{out}", "{alpha}"],
     "g_kb2_bits": ["graph", "kb2:lean", "bits", "200000", "{out}", "{alpha}"],
     "g_kb1_bits": ["graph", "kb1:lean", "bits", "200000", "{out}", "{alpha}"],
     "g_kb2_mixedq": ["graph", "kb2:lean", "mixedq", "800000", "{out}", "{alpha}"],
@@ -646,6 +648,15 @@ def run_check(pid, tier, seed):
     findings, _fixed = load_known()
     violations, known_hit = [], []
     seen = set()
+    # an exploration cap hit without any behavioural difference is not a violation: the object has
+    # more distinct renderings than the cap (e.g. a new field that does not influence behaviour);
+    # the check is then not exhaustive and says so
+    real = [x for x in found if x[1].get("kind") != "unbounded"]
+    inconclusive = [x for x in found if x[1].get("kind") == "unbounded"]
+    if inconclusive and not real:
+        print("NOTE property=%s exploration cap reached in %d product state(s) without any behavioural difference; "
+              "result is not exhaustive for this tree" % (pid, len(inconclusive)))
+    found = real
     for jobname, rec in found:
         key = canon_key(rec)
         if (pid, key) in seen:
@@ -694,14 +705,16 @@ def run_check(pid, tier, seed):
             "states": max(states, 1), "transitions": max(trans, 1),
             "traces_validated_against_impl": impl_n,
             "samples": samples or [{"jobs": jobs}],
-            "exhaustive": True,
+            "exhaustive": not inconclusive,
             "jobs": [{"job": r["job"], "module": r["module"], "verdict": r["verdict"],
                       "tlc_states_generated": r["stats"].get("generated"),
                       "tlc_distinct_states": r["stats"].get("distinct"), "wall_s": r["wall_s"],
+                      "served_from_cache_of_same_tree": bool(r.get("from_cache")),
                       "notes": r["notes"][:3]} for r in results],
             "known_findings_observed": len(known_hit),
-            "rule": "traces_validated_against_impl = implementation transitions / table cells "
-                    "extracted from the real objects in this run and judged by TLC",
+            "rule": "traces_validated_against_impl = implementation transitions / table cells / trace lines "
+                    "extracted from the real objects in this run and judged by TLC, plus calls made by the "
+                    "table walker against TLC-exported tables (jobs named replay_* / selfreplay_*)",
         },
         "assumptions": ["TLC 1.8.0 and CommunityModules Json/IOUtils are correct",
                         "equal derived-Debug renderings mean equal object state (hook verif-hooks)",
@@ -713,7 +726,7 @@ def run_check(pid, tier, seed):
     os.makedirs(EVID, exist_ok=True)
     with open(os.path.join(EVID, pid + ".json"), "w") as f:
         json.dump(ev, f, indent=1)
-    print("%s %s: %d job(s), %d implementation transitions/cells judged by TLC, %d violation(s), %d known finding(s), %.1fs"
+    print("%s %s: %d job(s), %d implementation transitions/cells/replayed calls judged against the specification, %d violation(s), %d known finding(s), %.1fs"
           % (pid, tier, len(results), impl_n, len(violations), len(known_hit), time.time() - t0))
     return 1 if violations else 0
 
